@@ -458,3 +458,113 @@ Proof.
 Qed.
 
 End XInv.
+
+(* ---------------- the initial state, the whole run ---------------- *)
+Lemma filter_nil_all : forall A (f : A -> bool) l, (forall x, In x l -> f x = false) -> filter f l = [].
+Proof.
+  intros A f l H. induction l as [|a l IH]; [reflexivity|]. cbn [filter].
+  rewrite (H a (or_introl eq_refl)). apply IH. intros x Hx. apply H. right. exact Hx.
+Qed.
+
+Lemma iniF_rows : forall tb tmax tmin l s, rows (iniF tb tmax tmin l s) = rows s.
+Proof.
+  intros tb tmax tmin l. induction l as [|a l IH]; intros s; [reflexivity|].
+  unfold iniF. simpl fold_left. fold (iniF tb tmax tmin l (init_inf tb tmin tmax s a)). rewrite IH. reflexivity.
+Qed.
+
+Section Run.
+Variable tb : tiepolicy.
+Variable g : graph.
+Variable tmax : xtime.
+Variable delay : node -> node -> xtime.
+Variable dur : node -> xtime.
+Variable tmin : Q.
+Variables i0 r0 : list node.
+
+Hypothesis Hdelay : forall u v d, In u (gnodes g) -> In v (gadj g u) -> delay u v = Some d -> 0 <= d.
+Hypothesis Hdur : forall u d, In u (gnodes g) -> dur u = Some d -> 0 <= d.
+Hypothesis Hadj : forall u, In u (gnodes g) -> NoDup (gadj g u).
+Hypothesis Hdisj : forall u, In u i0 -> ~ In u r0.
+Hypothesis Htmin : ltmax tmax tmin.
+Hypothesis Hgn : NoDup (gnodes g).
+Hypothesis Hi0g : forall u, In u i0 -> In u (gnodes g).
+Hypothesis Hadjg : forall u v, In u (gnodes g) -> In v (gadj g u) -> In v (gnodes g).
+Hypothesis Hr0nd : NoDup r0.
+Hypothesis Hr0g : forall u, In u r0 -> In u (gnodes g).
+
+Notation INV := (Inv g tmax delay dur tmin i0 r0).
+Notation XINV := (XI g tmax tmin i0 r0).
+
+Lemma st00_spec : forall v, st00 r0 v = if mem v r0 then stR else stS.
+Proof. intros v. unfold st00. apply set_all_spec. Qed.
+
+Lemma row00_census : snd (row00 g tmin r0) = census3 g (st00 r0).
+Proof.
+  unfold row00, GillespieP.census, GillespieP.cntst. cbn [snd].
+  assert (HR : length (filter (fun u => N.eqb (st00 r0 u) stR) (gnodes g)) = length r0).
+  { rewrite <- (GillespieP.count_mem r0 (gnodes g) Hr0nd Hgn) by (intros x Hx; apply Hr0g; exact Hx).
+    f_equal. apply filter_ext. intros u. rewrite st00_spec. destruct (mem u r0); reflexivity. }
+  assert (HI : length (filter (fun u => N.eqb (st00 r0 u) stI) (gnodes g)) = 0%nat).
+  { rewrite filter_nil_all; [reflexivity|]. intros u _. rewrite st00_spec. destruct (mem u r0); reflexivity. }
+  pose proof (GillespieP.partition3 (st00 r0) (gnodes g)) as Hp.
+  rewrite HR, HI in *. unfold order.
+  assert (H3 : forall x, st00 r0 x = stS \/ st00 r0 x = stI \/ st00 r0 x = stR).
+  { intros x. rewrite st00_spec. destruct (mem x r0); auto. }
+  specialize (Hp H3). f_equal. lia.
+Qed.
+
+Lemma init_xinv : XINV tmin [] (init_state tb g tmin tmax i0 r0).
+Proof.
+  unfold init_state.
+  set (s0 := mkE (set_all (fun _ => stS) r0 stR) (set_all (fun _ => None) r0 (Some (Some tmin)))
+                 (fun _ => None) [] O [(tmin, [order g - Z.of_nat (length r0); 0; Z.of_nat (length r0)]%Z)] [] []).
+  fold (iniF tb tmax tmin i0 s0).
+  destruct (iniF_spec tb tmax tmin Htmin i0 s0) as [H1 [H2 [H3 [H4 [H5 [H6 [H7 [H8 H9]]]]]]]].
+  assert (Hqx : forall x, In x (qu (iniF tb tmax tmin i0 s0)) -> qt x = tmin /\ exists u, In u i0 /\ qe x = ETrans None u).
+  { intros x Hx. apply H7 in Hx. destruct Hx as [[]|Hx]. exact Hx. }
+  constructor; rewrite ?H3, ?H1, ?iniF_rows; cbn [tlog rows stat s0].
+  - apply el_nil.
+  - cbn. apply Qle_refl.
+  - intros e [].
+  - intros t u [].
+  - intros t sr v [].
+  - intros e src w He Hq _. destruct (Hqx e He) as [Ht [u [Hu Hq']]].
+    assert (Hwu : w = u) by congruence. rewrite Hwu.
+    exists tmin. split; [|right; symmetry; exact Ht].
+    rewrite H4. apply mem_In in Hu. rewrite Hu. reflexivity.
+  - intros w Hw. rewrite H4. apply mem_In in Hw. rewrite Hw. reflexivity.
+  - intros e u w He Hq. destruct (Hqx e He) as [_ [u' [_ Hq']]]. congruence.
+  - intros t u v [].
+  - intros e v He _. apply (Hqx e He).
+  - intros t v [].
+  - intros u. rewrite filter_nil_all; [cbn; lia|].
+    intros x Hx. destruct (Hqx x Hx) as [_ [u' [_ Hq']]]. unfold is_rec. rewrite Hq'. reflexivity.
+  - intros e u He Hq. destruct (Hqx e He) as [_ [u' [_ Hq']]]. congruence.
+Qed.
+
+(* every run ends, within the fuel, in a state satisfying all three invariants; the ghost
+   log is the log of that run *)
+Theorem esir_xrun : forall fuel, (esir_fuel g i0 <= fuel)%nat ->
+  exists sF cF evs,
+    loop_log tb g tmax delay dur fuel (init_state tb g tmin tmax i0 r0) [] = Ok (sF, evs) /\
+    esir_run tb g delay dur i0 r0 tmin tmax fuel = Ok sF /\
+    qu sF = [] /\ INV cF sF /\ Inv2 tmin r0 sF /\ XINV cF evs sF.
+Proof.
+  intros fuel Hf.
+  destruct (loop_ghost tb g tmax delay dur tmin i0 r0 Hdelay Hdur Hadj Htmin Hgn Hadjg
+              (fun c evs s => Inv2 tmin r0 s /\ XINV c evs s)) with
+      (fuel := fuel) (s := init_state tb g tmin tmax i0 r0) (c := tmin) (evs := @nil event)
+    as [sF [cF [evs [HL [HD [Hq [HI [H2 HX]]]]]]]].
+  - intros c s e q' evs HI HF [H2 HX] Hq. split.
+    + assert (Hg : forall src v, qe e = ETrans src v -> In v (gnodes g)).
+      { intros src v He. apply (HF e src v); auto. rewrite Hq. left. auto. }
+      apply (step2 tb g tmax delay dur tmin i0 r0 Hadj c s e q' HI H2 Hq Hg).
+    + apply (xstep tb g tmax delay dur tmin i0 r0 Hdelay Hadj Hgn row00_census c s e q' evs HI HF HX Hq).
+  - apply (init_inv tb g tmax delay dur tmin i0 r0 Hdisj Htmin).
+  - apply (init_fuel_inv tb g tmax tmin i0 r0 Htmin Hi0g).
+  - pose proof (init_phi tb g tmax tmin i0 r0 Htmin). lia.
+  - split; [apply (init2 tb g tmax tmin i0 r0 Hdisj Htmin)|apply init_xinv].
+  - exists sF, cF, evs. unfold esir_run. auto 10.
+Qed.
+
+End Run.
